@@ -1121,6 +1121,8 @@ def b_scipy(c):
     if prim in ("special.polygamma", "special.jn", "special.yn", "special.iv", "special.ive"):
         n = c["ia"]
         x = sci_data(prim, 0, s1, 0)
+        if st == "neg":
+            x = -x
         return (lambda v: fn(n, v)), (x if onp.ndim(x) else float(x)), info
     if prim == "special.multigammaln":
         d = c["ia"]
@@ -1176,7 +1178,14 @@ def b_scipy(c):
         a = onp.tril(full) if lower else onp.triu(full)
         b = data(s2, -1.0, 1.0, 4)
         tr = c["ia"]
-        if st == "str":
+        if st == "overwrite":      # SciPy may reuse the forward right-hand side; nothing else may be written to
+            kw = {"trans": tr, "lower": lower, "overwrite_b": True}
+            if argnum == 1:
+                raise Skip("overwrite_b with b itself differentiated: the caller asked for b to be overwritten")
+            return pick([a, b], lambda u, v: fn(u, onp.array(v, copy=True), **kw))
+        elif st == "unitdiag":
+            raise Skip("unit_diagonal: the rule is for the general triangular solve (finite differences ignore the diagonal)")
+        elif st == "str":
             kw = {"trans": "NTC"[tr], "lower": lower}
         elif st == "default":
             if tr:
@@ -1208,6 +1217,10 @@ def b_scipy(c):
             kw.update(axes=([0, 1], [0, 1]))
         elif lay == 4:
             kw.update(axes=([1], [1]))
+        elif lay == 5:
+            kw.update(axes=([3], [2]), dot_axes=([1, 2], [0, 1]))
+        elif lay == 6:
+            kw.update(axes=([2], [1]))
         if np is onp:
             raise Skip("autograd's convolve is its own function (tensor convolution with dot axes), not scipy.signal.convolve")
         return pick([A, B], lambda u, v: fn(u, v, **kw))
@@ -1218,6 +1231,8 @@ def b_scipy(c):
                               "special.betainc", "stats.beta.pdf", "stats.beta.logpdf", "stats.beta.cdf") or prim.startswith("stats.norm.") else 2)
     shapes = [s1, s2, s3][:nargs]
     args = [sci_data(prim, i, sh, 3 * i) for i, sh in enumerate(shapes)]
+    if st in ("lotail", "hitail"):       # (x - loc) / scale beyond 40 standard deviations
+        args = [data(s1, 50.0, 60.0, 0) * (-1.0 if st == "lotail" else 1.0), data(s2, -1.0, 1.0, 3), data(s3, 0.8, 1.2, 6)]
     if nargs == 1:
         x = args[0]
         return (lambda v: fn(v)), (x if onp.ndim(x) else (float(x) if c["id"] % 2 == 0 else onp.array(float(x)))), info
